@@ -15,6 +15,9 @@ pub struct Case {
     pub stress_threads: u8,
     #[serde(default)]
     pub per_thread: u8,
+    /// the store directory is on the block file system under the verification root instead of tmpfs
+    #[serde(default)]
+    pub disk: bool,
 }
 
 pub struct C04;
@@ -43,14 +46,14 @@ impl Prop for C04 {
             delete_own: 3,
             vanish: 1,
             reopen: 2,
-            rebuild: 0,
+            rebuild: 1,
             extra: 0,
             pressure: 0,
             mass_delete: 0,
             big: 3,
         };
-        (history(w, EvCfg::default(), tier.pick(40, 150)), prop_oneof![3 => Just(0u8), 1 => 2u8..5], 8u8..40)
-            .prop_map(|(ops, stress_threads, per_thread)| Case { ops, stress_threads, per_thread })
+        (history(w, EvCfg::default(), tier.pick(40, 150)), prop_oneof![3 => Just(0u8), 1 => 2u8..5], 8u8..40, prop::bool::weighted(0.2))
+            .prop_map(|(ops, stress_threads, per_thread, disk)| Case { ops, stress_threads, per_thread, disk })
             .boxed()
     }
     fn label_floors(&self) -> Vec<(&'static str, f64)> {
@@ -64,7 +67,8 @@ impl Prop for C04 {
     }
     fn check(&self, c: &Case) -> Outcome {
         let mut out = Outcome::default();
-        let mut w = match World::new(0) {
+        out.label(if c.disk { "on-block-filesystem" } else { "on-tmpfs" });
+        let mut w = match World::new_on(0, c.disk) {
             Ok(w) => w,
             Err(f) => {
                 out.fail(format!("C04:{}", f.key), f.detail);
